@@ -82,8 +82,29 @@ def _descending_case(rng, gate):
             "idle": [], "part": [0, 1, 1], "form": form}
 
 
+def _near_angle_cases():
+    """a cut gate of every parametrised family whose angle is CLOSE TO, but not at, a multiple of pi/2 (distance 1e-5 .. 3e-5: inside the
+    default tolerance of np.isclose / np.allclose relative to pi, far outside the 1e-7 of the comparison), both operand orders, both call
+    forms; both qubits in generic superpositions so that the expectation values depend on the angle in first order.  Seed independent."""
+    import math
+    import random
+    r = random.Random(20240917)
+    spec = [("cp", 1, -2e-5), ("cp", -1, 2e-5), ("cp", 3, 1e-5), ("crz", 1, 2e-5), ("crx", -1, -2.5e-5), ("cry", 2, 1.5e-5),
+            ("rzz", 1, -2e-5), ("rxx", 0.5, 2e-5), ("ryy", -0.5, -1.5e-5), ("cp", 2, -2e-5), ("crz", 4, 2e-5), ("rzz", 0, 2.5e-5)]
+    for i, (fam, mult, eps) in enumerate(spec):
+        qs = [0, 1] if i % 2 == 0 else [1, 0]
+        instrs = [{"name": "ry", "qubits": [0], "params": [0.7 + 0.1 * i]}, {"name": "rx", "qubits": [0], "params": [0.5]},
+                  {"name": "ry", "qubits": [1], "params": [1.1 - 0.05 * i]}, {"name": "rz", "qubits": [1], "params": [0.9]},
+                  {"name": fam, "qubits": qs, "params": [mult * math.pi + eps]},
+                  {"name": "ry", "qubits": [0], "params": [0.6]}, {"name": "rx", "qubits": [1], "params": [-0.8]}]
+        yield {"nq": 2, "qregs": [2], "instrs": instrs, "labels": [0, 1], "pool_idx": r.sample(range(len(workflow.gen.LABEL_POOL)), 2),
+               "obs": [{"l": "XI", "p": 0}, {"l": "YZ", "p": 0}, {"l": "XX", "p": 0}, {"l": "ZY", "p": 0}, {"l": "IZ", "p": 0}, {"l": "ZX", "p": 0}],
+               "idle": [], "part": [0, 1], "form": "dict" if i % 3 else "single", "N": None, "seed": 0, "always_oracle": True}
+
+
 def cases(rng, tier):
     N = 60 if tier == "quick" else 700
+    yield from (("roundtrip", p) for p in _near_angle_cases())
     asym = [("cx", None), ("cy", None), ("ch", None), ("ecr", None), ("dcx", None), ("csx", None), ("crx", [0.8]), ("cry", [1.3]),
             ("crz", [2.1]), ("unitary", [5, 2]), ("rzx", [0.9])]
     # three weak cuts: most joint maps have probability between 1e-14 and 1e-8; dropping them shifts the values by several 1e-7
